@@ -15,6 +15,8 @@ def run(ctx):
     quick = ctx.tier == "quick"
     hc = ctx.build_harness("h_smcode")
     ctx.pipe([hc, "exsmooth", "30" if quick else "400", "13", "16"], "exsmcode", label="ex-smoother-code-level")
+    # the parallel regions of these operators must be race-free, otherwise the result depends on the schedule
+    ctx.schedule_conflicts(("ExtrapolatedSmootherGive", "ExtrapolatedSmootherTake"))
     ctx.assumptions += ["spec-level theorems C07.*: see C06; code-level theorems C07c.* are about GMGModel/ExSmootherCode.lean, tied to "
                         "ExtrapolatedSmootherTake by the stage ex-smoother-code-level (stored entries and temp bit for bit in double)",
                         "bitwise invariance of coarse nodes is observed on the implementation; C07c.code_exsweep_coarse_fixed proves exact "
